@@ -66,6 +66,7 @@ type Thread struct {
 	held    []*LockState // write-held locks, in acquisition order
 	rheld   []*LockState
 	named   bool
+	urgent  bool
 }
 
 type pendingOp struct {
@@ -132,6 +133,7 @@ type Sched struct {
 	out      Outcome
 	timerSeq int
 	timerFir map[int]int
+	timers   map[int]*time.Timer
 	start    time.Time
 	horizon  time.Duration
 	maxSteps int
@@ -262,6 +264,43 @@ func (s *Sched) EnterTimer(seq int) func() {
 	}
 }
 
+// RegisterTimer remembers an AfterFunc timer so that timers still armed at the end of an
+// execution can be reported.
+func (s *Sched) RegisterTimer(seq int, t *time.Timer) {
+	s.mu.Lock()
+	if s.timers == nil {
+		s.timers = map[int]*time.Timer{}
+	}
+	s.timers[seq] = t
+	s.mu.Unlock()
+}
+
+// StopArmedTimers stops every registered timer and returns the creation numbers of those
+// that were still armed.
+func (s *Sched) StopArmedTimers() []int {
+	s.mu.Lock()
+	defer s.mu.Unlock()
+	var armed []int
+	for seq, t := range s.timers {
+		if t.Stop() {
+			armed = append(armed, seq)
+		}
+	}
+	sort.Ints(armed)
+	return armed
+}
+
+// TimerFirings returns the total number of AfterFunc callbacks started so far.
+func (s *Sched) TimerFirings() int {
+	s.mu.Lock()
+	defer s.mu.Unlock()
+	n := 0
+	for _, c := range s.timerFir {
+		n += c
+	}
+	return n
+}
+
 // NewTimerSeq allocates a creation sequence number for an AfterFunc timer.
 func (s *Sched) NewTimerSeq() int {
 	s.mu.Lock()
@@ -291,6 +330,17 @@ func (s *Sched) Point(kind OpKind, obj string, enabled func() bool, onGrant func
 	t := s.cur()
 	s.park(t, &pendingOp{kind: kind, obj: obj, enabled: enabled, onGrant: onGrant})
 }
+
+// SetUrgent makes t the first choice of the canonical schedule whenever it is enabled
+// (used to inject an event at an exact scheduling step).
+func (s *Sched) SetUrgent(t *Thread, on bool) {
+	s.mu.Lock()
+	t.urgent = on
+	s.mu.Unlock()
+}
+
+// Steps returns the number of decisions taken so far.
+func (s *Sched) Steps() int { return len(s.out.Steps) }
 
 // Yield is an always-enabled point.
 func (s *Sched) Yield() { s.Point(OpYield, "", nil, nil) }
@@ -376,15 +426,25 @@ func (s *Sched) loop() {
 
 		// canonical order: the running thread first if still enabled, then ascending id
 		var menu []Action
-		if s.current != nil {
+		var first *Thread
+		for _, t := range en {
+			if t.urgent {
+				first = t
+				break
+			}
+		}
+		if first == nil && s.current != nil {
 			for _, t := range en {
 				if t == s.current {
-					menu = append(menu, s.threadAction(t, CatDefault))
+					first = t
 				}
 			}
 		}
+		if first != nil {
+			menu = append(menu, s.threadAction(first, CatDefault))
+		}
 		for _, t := range en {
-			if t == s.current {
+			if t == first {
 				continue
 			}
 			c := CatSched
